@@ -1372,12 +1372,14 @@ class Engine:
         self.stats.picks += 1
         return v
 
-    def assume(self, c):
+    def assume(self, c, check=True):
         if c is True:
             return
         if c is False:
             self._abort('assume')
         self.solver.add(_be(c))
+        if not check:
+            return                      # caller knows the constraint is satisfiable (e.g. a fresh variable's range)
         r = self._check()
         if r == z3.unsat:
             self._abort('assume')
@@ -1550,7 +1552,7 @@ class ConcreteEngine:
     def pick(self, x):
         return x
 
-    def assume(self, c):
+    def assume(self, c, check=True):
         if not c:
             raise HarnessError('native replay: assumption false under the model')
 
